@@ -3,6 +3,7 @@
 //   opqp <off>                       same for a pointer (off = 0: null)
 //   opqs <a> <b> <poff> <c>          struct S1: opaque round trip field by field + image comparison
 //   opqcb <guestval>                 a callback taking and returning tainted_opaque<long>, called by guest code
+//   opqcbf <dbits> <fbits> <guestlong>  a callback taking tainted_opaque<double>, <float>, <long> and returning tainted_opaque<double>
 //   scast <to> <from> <T|V> <val>    sandbox_static_cast<to> of a tainted / tainted_volatile <from>
 //   pcast <which> <T|V> <off>        sandbox_reinterpret_cast / sandbox_const_cast / sandbox_static_cast on pointers
 #define INV_CFG verif_cfg32
@@ -30,6 +31,21 @@ static rlbox::tainted_opaque<long, Sbx> cb_opq(sandbox_t&, rlbox::tainted_opaque
   rlbox::tainted<long, Sbx> t = rlbox::from_opaque(x);
   glog(t.UNSAFE_unverified());
   return t.to_opaque();
+}
+
+double echo_opqf(double (*)(double, float, long), double, float, long);
+static double guest_echo_opqf(rep_t cb, double a, float b, g_t<long> c)
+{
+  return Sbx::guest_call_callback<double, double, float, g_t<long>>(cb, a, b, c);
+}
+static rlbox::tainted_opaque<double, Sbx> cb_opqf(sandbox_t&, rlbox::tainted_opaque<double, Sbx> a, rlbox::tainted_opaque<float, Sbx> b,
+                                                   rlbox::tainted_opaque<long, Sbx> c)
+{
+  rlbox::tainted<double, Sbx> ta = rlbox::from_opaque(a);
+  glog(ta.UNSAFE_unverified());
+  glog(rlbox::from_opaque(b).UNSAFE_unverified());
+  glog(rlbox::from_opaque(c).UNSAFE_unverified());
+  return ta.to_opaque();
 }
 
 template<typename F>
@@ -74,6 +90,11 @@ static std::string run_case(const toks_t& t)
     auto cb = sb.register_callback(cb_opq);
     g_glog.clear();
     auto r = sb.invoke_sandbox_function(echo_opq, cb, parse_val<long>(t.at(1)));
+    out = "SAW=" + g_glog + " R=" + show_val(r.UNSAFE_unverified());
+  } else if (op == "opqcbf") {
+    auto cb = sb.register_callback(cb_opqf);
+    g_glog.clear();
+    auto r = sb.invoke_sandbox_function(echo_opqf, cb, parse_val<double>(t.at(1)), parse_val<float>(t.at(2)), parse_val<long>(t.at(3)));
     out = "SAW=" + g_glog + " R=" + show_val(r.UNSAFE_unverified());
   } else if (op == "scast") {
     bool vol = t.at(3) == "V";
